@@ -12,9 +12,9 @@ sys.setrecursionlimit(max(sys.getrecursionlimit(), 20000))
 
 ID = 'C16'
 PROFILES = ['debug', 'release']
-THEOREMS = ['C16_accept_within', 'C16_accept_iff_budget', 'C16_reject_deeper', 'C16_depth_balanced', 'C16_no_assert',
-            'C16_counter_is_budget', 'C16_stack_bounded']
-RULE = ('all d in 0..64 (+ 100, 1000) x nesting profiles: random words over {[, <<} of length d-1, d, d+1 (and random trees of '
+THEOREMS = ['C16_accept_within', 'C16_reject_deeper', 'C16_reject_deep_brackets', 'C16_depth_balanced',
+            'C16_counter_is_budget', 'C16_no_assert']
+RULE = ('all d in 0..64 (+ 100, 250) x nesting profiles: random words over {[, <<} of length d-1, d, d+1 (and random trees of '
         'that nesting) spelled with random whitespace/comments, each valid or with a failure injected at a random level '
         '(missing closer, bad token, end of input, duplicate key), with 0..3 levels already entered; 10^5- and 10^6-deep '
         '[[[[… / <</a<</a… / mixed / balanced inputs in a child process with a 64 MiB stack.  non-trivial = nesting within '
@@ -74,8 +74,8 @@ def cases(tier, rng):
     saved = list(G.PLUS)
     G.PLUS[:] = []          # signs are C02's business; keep C16 independent of finding C02-plus
     try:
-        for d in list(range(0, 65)) + [100, 1000]:
-            for k in ([0] if d == 0 else [0, 0, min(d, 1), min(d, 3)]):
+        for d in list(range(0, 65)) + [100, 250]:      # (the extracted model is quadratic in the nesting: 1000 levels cost ~10 s a case)
+            for k in ([0] if d == 0 else [0, 0, min(d, 1), min(d, 3)] if d <= 64 else [0, 3]):
                 b = d - k
                 for n in sorted(set(x for x in (b - 1, b, b + 1, b + 2) if x >= 1)):
                     for _ in range(reps):
